@@ -374,8 +374,13 @@ func (fr *Frame) callStatic(callee *ssa.Function, args []Val, free []Val, cc *ss
 	if fc.inlinable(callee, fr.depth) {
 		fc.inlined[QualName(callee)] = true
 		sub := fc.newFrame(callee, fr.depth+1, reach)
-		res, nst, _ := sub.exec(args, free, *st)
+		res, nst, rc := sub.exec(args, free, *st)
 		*st = nst
+		if fc.Mode == "contract" && (fc.C == nil || !fc.C.Flags["nopanic"]) && rc != "true" {
+			// the inlined callee may panic on some paths: a panic aborts the transaction (A-abort), so the
+			// caller continues only when the callee returned normally
+			fc.B.Assert(implies(reach, rc))
+		}
 		return tupleOf(res, resT)
 	}
 	fc.opaque[name] = true
